@@ -369,6 +369,10 @@ pub fn specs_for(seed: u64, t: &Tier) -> Vec<(String, ProgSpec, u64)> {
         specs.push((format!("gen:{}", case), spec, case));
     }
     let base = specs.len() as u64;
+    for (k, (name, src)) in super::c11::limit_templates().into_iter().enumerate() {
+        specs.push((format!("limit:{}", name), ProgSpec::Source(src), base + k as u64));
+    }
+    let base = specs.len() as u64;
     for j in 0..t.models {
         let case = base + j as u64;
         let mut rng = Rng::for_case(seed, "C08", "workload", case);
